@@ -5,6 +5,497 @@ From GB Require Import Base.Prelude Base.GoSem Base.DecText Base.GoFmt Base.Byte
 From GB Require Import Model.Cell Proofs.TransEquivCellBytesDefs.
 From GBGen Require Import Consts TransCellBytes.
 Open Scope Z_scope.
+Ltac Zify.zify_post_hook ::= Z.to_euclidean_division_equations.
+
+(* ------------------------------------------------------------------------------------------------------------------
+   The generated definition, cut into its pieces.  A loop counts as a branch that leaves, so the text after
+   `if isNegative {...}` occurs twice in CellBytes_TypeNewDecimal_g; both occurrences are g_cont below (g_unfold, by
+   conversion). *)
+Section Pieces.
+Variable v_d : bytes.
+Variables v_intg0 v_intg0x v_scale v_frac0 v_frac0x v_l : Z.
+
+Definition g_frac_tail (v_txt : bytes) (v_pos : Z) : res (bytes * Z) :=
+  do t118 <- go_idx tab_dig2bytes v_frac0x;
+  if (t118 =? 0) then (
+  Ok (v_txt, v_l)
+  ) else (
+  if (t118 =? 1) then (
+  do t119 <- go_idx v_d v_pos; let v_val := t119 in
+
+  do v_txt <- (if (v_frac0x =? 1) then (
+  let v_txt := (v_txt ++ ((fmt_0d 1 v_val))) in
+  Ok v_txt
+  ) else (
+  let v_txt := (v_txt ++ ((fmt_0d 2 v_val))) in
+  Ok v_txt
+  ));
+  Ok (v_txt, v_l)
+  ) else (
+  if (t118 =? 2) then (
+  do t120 <- go_idx v_d v_pos; do t121 <- go_idx v_d (i64 (v_pos + 1)); let v_val := (u32 ((go_shl u32 t120 8) + t121)) in
+
+  do v_txt <- (if (v_frac0x =? 3) then (
+  let v_txt := (v_txt ++ ((fmt_0d 3 v_val))) in
+  Ok v_txt
+  ) else (
+  let v_txt := (v_txt ++ ((fmt_0d 4 v_val))) in
+  Ok v_txt
+  ));
+  Ok (v_txt, v_l)
+  ) else (
+  if (t118 =? 3) then (
+  do t122 <- go_idx v_d v_pos; do t123 <- go_idx v_d (i64 (v_pos + 1)); do t124 <- go_idx v_d (i64 (v_pos + 2)); let v_val := (u32 ((u32 ((go_shl u32 t122 16) + (go_shl u32 t123 8))) + t124)) in
+
+  do v_txt <- (if (v_frac0x =? 5) then (
+  let v_txt := (v_txt ++ ((fmt_0d 5 v_val))) in
+  Ok v_txt
+  ) else (
+  let v_txt := (v_txt ++ ((fmt_0d 6 v_val))) in
+  Ok v_txt
+  ));
+  Ok (v_txt, v_l)
+  ) else (
+  if (t118 =? 4) then (
+  do t125 <- go_idx v_d v_pos; do t126 <- go_idx v_d (i64 (v_pos + 1)); do t127 <- go_idx v_d (i64 (v_pos + 2)); do t128 <- go_idx v_d (i64 (v_pos + 3)); let v_val := (u32 ((u32 ((u32 ((go_shl u32 t125 24) + (go_shl u32 t126 16))) + (go_shl u32 t127 8))) + t128)) in
+
+  do v_txt <- (if (v_frac0x =? 7) then (
+  let v_txt := (v_txt ++ ((fmt_0d 7 v_val))) in
+  Ok v_txt
+  ) else (
+  let v_txt := (v_txt ++ ((fmt_0d 8 v_val))) in
+  Ok v_txt
+  ));
+  Ok (v_txt, v_l)
+  ) else (
+  Ok (v_txt, v_l)))))).
+
+Definition g_frac_loop : nat -> Z -> bytes -> Z -> Z -> res (bytes * Z) :=
+  (fix loop115 (fuel3 : nat) (v_val : Z) (v_txt : bytes) (v_pos : Z) (v_i : Z) {struct fuel3} : res (bytes * Z) :=
+  match fuel3 with O => Err EOutOfFuel | S fuel3p =>
+
+  if (v_i <? v_frac0) then (
+  do t117 <- go_slice v_d v_pos (i64 (v_pos + 4)); do t116 <- go_be t117 4; let v_val := t116 in
+  let v_txt := (v_txt ++ ((fmt_0d 9 v_val))) in
+  let v_pos := (i64 (v_pos + 4)) in
+  let v_i := (i64 (v_i + 1)) in
+  loop115 fuel3p v_val v_txt v_pos v_i
+  ) else (
+  g_frac_tail v_txt v_pos
+  ) end).
+
+Definition g_int_exit (fuel2p : nat) (v_val : Z) (v_txt : bytes) (v_flag : bool) (v_pos : Z) : res (bytes * Z) :=
+  do v_txt <- (if (negb v_flag) then (
+  let v_txt := (v_txt ++ [48]) in
+  Ok v_txt
+  ) else (
+  Ok v_txt
+  ));
+
+  if (v_scale =? 0) then (
+  Ok (v_txt, v_l)
+  ) else (
+  let v_txt := (v_txt ++ [46]) in
+  let v_i := 0 in
+  g_frac_loop fuel2p v_val v_txt v_pos v_i).
+
+Definition g_int_loop : nat -> Z -> bytes -> bool -> Z -> Z -> res (bytes * Z) :=
+  (fix loop112 (fuel2 : nat) (v_val : Z) (v_txt : bytes) (v_flag : bool) (v_pos : Z) (v_i : Z) {struct fuel2} : res (bytes * Z) :=
+  match fuel2 with O => Err EOutOfFuel | S fuel2p =>
+
+  if (v_i <? v_intg0) then (
+  do t114 <- go_slice v_d v_pos (i64 (v_pos + 4)); do t113 <- go_be t114 4; let v_val := t113 in
+
+  do (v_txt, v_flag) <- (if v_flag then (
+  let v_txt := (v_txt ++ ((fmt_0d 9 v_val))) in
+  Ok (v_txt, v_flag)
+  ) else (
+
+  do (v_txt, v_flag) <- (if (v_val >? 0) then (
+  let v_txt := (v_txt ++ ((fmt_d v_val))) in
+  let v_flag := true in
+  Ok (v_txt, v_flag)
+  ) else (
+  Ok (v_txt, v_flag)
+  ));
+  Ok (v_txt, v_flag)
+  ));
+  let v_pos := (i64 (v_pos + 4)) in
+  let v_i := (i64 (v_i + 1)) in
+  loop112 fuel2p v_val v_txt v_flag v_pos v_i
+  ) else (
+  g_int_exit fuel2p v_val v_txt v_flag v_pos
+  ) end).
+
+Definition g_lead_sw (v_val t100 : Z) : res Z :=
+  (
+  if (t100 =? 0) then (
+  Ok v_val
+  ) else (
+  if (t100 =? 1) then (
+  do t101 <- go_idx v_d 0; let v_val := t101 in
+  Ok v_val
+  ) else (
+  if (t100 =? 2) then (
+  do t102 <- go_idx v_d 0; do t103 <- go_idx v_d 1; let v_val := (u32 ((go_shl u32 t102 8) + t103)) in
+  Ok v_val
+  ) else (
+  if (t100 =? 3) then (
+  do t104 <- go_idx v_d 0; do t105 <- go_idx v_d 1; do t106 <- go_idx v_d 2; let v_val := (u32 ((u32 ((go_shl u32 t104 16) + (go_shl u32 t105 8))) + t106)) in
+  Ok v_val
+  ) else (
+  if (t100 =? 4) then (
+  do t107 <- go_idx v_d 0; do t108 <- go_idx v_d 1; do t109 <- go_idx v_d 2; do t110 <- go_idx v_d 3; let v_val := (u32 ((u32 ((u32 ((go_shl u32 t107 24) + (go_shl u32 t108 16))) + (go_shl u32 t109 8))) + t110)) in
+  Ok v_val
+  ) else (
+  Ok v_val)))))).
+
+Definition g_cont (fuel1p : nat) (v_txt : bytes) : res (bytes * Z) :=
+  let v_val := 0 in
+  do t100 <- go_idx tab_dig2bytes v_intg0x;
+  do v_val <- g_lead_sw v_val t100;
+  do t111 <- go_idx tab_dig2bytes v_intg0x; let v_pos := t111 in
+  let v_flag := false in
+
+  do (v_flag, v_txt) <- (if (v_val >? 0) then (
+  let v_flag := true in
+  let v_txt := (v_txt ++ (fmt_d v_val)) in
+  Ok (v_flag, v_txt)
+  ) else (
+  Ok (v_flag, v_txt)
+  ));
+  let v_i := 0 in
+  g_int_loop fuel1p v_val v_txt v_flag v_pos v_i.
+End Pieces.
+
+(* for i := range d { d[i] ^= 0xFF }, then K *)
+Definition g_neg_loop (K : nat -> bytes -> res (bytes * Z)) (v_range96 : bytes) : nat -> bytes -> Z -> res (bytes * Z) :=
+  (fix loop97 (fuel1 : nat) (v_d : bytes) (v_i : Z) {struct fuel1} : res (bytes * Z) :=
+  match fuel1 with O => Err EOutOfFuel | S fuel1p =>
+
+  if (v_i <? (len v_range96)) then (
+  do t98 <- go_idx v_d v_i; do t99 <- go_upd v_d v_i (Z.lxor t98 255); let v_d := t99 in
+  let v_i := (i64 (v_i + 1)) in
+  loop97 fuel1p v_d v_i
+  ) else (
+  K fuel1p v_d
+  ) end).
+
+Lemma g_unfold fuel v_data v_pos v_typ v_metadata v_isUnSignedInt :
+  CellBytes_TypeNewDecimal_g fuel v_data v_pos v_typ v_metadata v_isUnSignedInt =
+  let v_precision := (go_shr v_metadata 8) in
+  let v_scale := (Z.land v_metadata 255) in
+  let v_intg := (i64 (v_precision - v_scale)) in
+  let v_intg0 := (i64 (Z.quot v_intg 9)) in
+  let v_intg0x := (i64 (v_intg - (i64 (v_intg0 * 9)))) in
+  let v_frac0 := (i64 (Z.quot v_scale 9)) in
+  let v_frac0x := (i64 (v_scale - (i64 (v_frac0 * 9)))) in
+  do t89 <- go_idx tab_dig2bytes v_intg0x; do t90 <- go_idx tab_dig2bytes v_frac0x; let v_l := (i64 ((i64 ((i64 ((i64 (v_intg0 * 4)) + t89)) + (i64 (v_frac0 * 4)))) + t90)) in
+  do t91 <- go_make v_l; let v_d := t91 in
+  do t92 <- go_slice v_data v_pos (i64 (v_pos + v_l)); let v_d := (go_copy v_d t92) in
+  do t93 <- go_idx v_d 0; let v_isNegative := ((Z.land t93 128) =? 0) in
+  do t94 <- go_idx v_d 0; do t95 <- go_upd v_d 0 (Z.lxor t94 128); let v_d := t95 in
+  if v_isNegative then
+    g_neg_loop (fun f d' => g_cont d' v_intg0 v_intg0x v_scale v_frac0 v_frac0x v_l f ([] ++ [45])) v_d fuel v_d 0
+  else g_cont v_d v_intg0 v_intg0x v_scale v_frac0 v_frac0x v_l fuel [].
+Proof. reflexivity. Qed.
+
+(* ------------------------------------------------------------------------------------------------------------------
+   General facts *)
+Lemma lxor_byte_sweep :
+  sweep16 (fun b => (0 <=? Z.lxor b 255) && (Z.lxor b 255 <? 256) && ((0 <=? Z.lxor b 128) && (Z.lxor b 128 <? 256)))
+          (Z.to_nat 256) 0 = true.
+Proof. vm_compute. reflexivity. Qed.
+Lemma lxor_byte b : 0 <= b < 256 -> 0 <= Z.lxor b 255 < 256 /\ 0 <= Z.lxor b 128 < 256.
+Proof.
+  intros H. pose proof (sweep16_spec _ _ _ lxor_byte_sweep b ltac:(lia)) as S. cbn [Z.add] in S.
+  apply andb_true_iff in S as [A B]. apply andb_true_iff in A as [A1 A2]. apply andb_true_iff in B as [B1 B2]. lia.
+Qed.
+
+Lemma wf_map_lxor l : wf_bytes l -> wf_bytes (map (fun b => Z.lxor b 255) l).
+Proof.
+  unfold wf_bytes. intros W. induction W as [|x l Hx W IH]; cbn [map]; constructor; [|exact IH].
+  unfold is_byte in *. apply lxor_byte. exact Hx.
+Qed.
+
+Lemma go_idx_dig2 i : go_idx tab_dig2bytes i = dig2 i.
+Proof.
+  unfold go_idx, dig2, at_. change tab_dig2bytes with dig2bytes.
+  destruct (i <? 0) eqn:E1; destruct (0 <=? i) eqn:E2; try lia; reflexivity.
+Qed.
+
+Lemma dig2_vals :
+  dig2 0 = Ok 0 /\ dig2 1 = Ok 1 /\ dig2 2 = Ok 1 /\ dig2 3 = Ok 2 /\ dig2 4 = Ok 2 /\ dig2 5 = Ok 3 /\ dig2 6 = Ok 3 /\
+  dig2 7 = Ok 4 /\ dig2 8 = Ok 4.
+Proof. repeat split; reflexivity. Qed.
+Lemma dig2_neg x : x < 0 -> dig2 x = Panic.
+Proof. intros H. unfold dig2. destruct (0 <=? x) eqn:E; [lia|reflexivity]. Qed.
+Lemma dig2_small x v : 0 <= x <= 8 -> dig2 x = Ok v -> 0 <= v <= 4.
+Proof.
+  intros H D. assert (C : x = 0 \/ x = 1 \/ x = 2 \/ x = 3 \/ x = 4 \/ x = 5 \/ x = 6 \/ x = 7 \/ x = 8) by lia.
+  destruct dig2_vals as (D0 & D1 & D2 & D3 & D4 & D5 & D6 & D7 & D8).
+  repeat (destruct C as [C|C]; [subst x; rewrite ?D0, ?D1, ?D2, ?D3, ?D4, ?D5, ?D6, ?D7, ?D8 in D; inversion D; lia|]).
+  subst x; rewrite D8 in D; inversion D; lia.
+Qed.
+
+Lemma flat_bind {A} (x : res A) (k : A -> res (option bytes * Z)) : flat (bind x k) = bind x (fun a => flat (k a)).
+Proof. destruct x; reflexivity. Qed.
+
+(* big-endian read as nested single-byte reads at p+k, p+k+1, ... *)
+Fixpoint at_be (d : bytes) (p k : nat) (acc : Z) (n : nat) : res Z :=
+  match n with O => Ok acc | S m => do a <- at_ d (p + k); at_be d p (S k) (acc * 256 + a) m end.
+
+Lemma slice_be_acc n : forall d p k acc, (0 < n)%nat ->
+  (do s <- slice d (p + k) n; Ok (be_dec_acc acc s)) = at_be d p k acc n.
+Proof.
+  induction n as [|n IH]; intros d p k acc Hn; [lia|].
+  rewrite slice_S. cbn [at_be]. destruct (at_cases d (p + k)) as [(b & E & L)|[E L]]; rewrite E; cbn [bind]; [|reflexivity].
+  replace (S (p + k)) with (p + S k)%nat by lia.
+  destruct n as [|n].
+  - rewrite slice_0 by lia. reflexivity.
+  - rewrite <- IH by lia. destruct (slice d (p + S k) (S n)); reflexivity.
+Qed.
+
+Lemma be_at_at_be d p n : (0 < n)%nat -> be_at d p n = at_be d p 0 0 n.
+Proof. intros H. rewrite <- slice_be_acc by exact H. rewrite Nat.add_0_r. reflexivity. Qed.
+
+Lemma be_at_0_0 d : be_at d 0 0 = Ok 0.
+Proof. reflexivity. Qed.
+
+(* binary.BigEndian.Uint32(d[a:a+4]) followed by any continuation *)
+Lemma go_slice_be_bind {B} d a b (k : Z -> res B) a' : a = Z.of_nat a' -> b = Z.of_nat a' + 4 ->
+  (do s <- go_slice d a b; do v <- go_be s 4; k v) = (do v <- be_at d a' 4; k v).
+Proof.
+  intros -> ->. change 4 with (Z.of_nat 4). rewrite go_slice_nat. unfold be_at.
+  destruct (slice d a' 4) as [s| |] eqn:E; cbn [bind]; try reflexivity.
+  unfold go_be. pose proof (slice_length _ _ _ _ E) as L. rewrite L. cbn [Nat.leb]. rewrite <- L, firstn_all. reflexivity.
+Qed.
+
+Lemma list_upd_app_mid pre b suf v : list_upd (pre ++ b :: suf) (length pre) v = Some (pre ++ v :: suf).
+Proof. induction pre as [|x pre IH]; cbn [app length list_upd]; [reflexivity|]. rewrite IH. reflexivity. Qed.
+
+Lemma go_copy_fresh n src : length src = n -> go_copy (repeat 0 n) src = src.
+Proof.
+  intros H. unfold go_copy. rewrite repeat_length. rewrite <- H, firstn_all.
+  rewrite skipn_all2 by (rewrite repeat_length; lia). apply app_nil_r.
+Qed.
+
+Lemma take_slice d pos l : 0 <= l -> take d pos l = slice d pos (Z.to_nat l).
+Proof.
+  intros H. unfold take. destruct (0 <=? l) eqn:E; [|lia]. cbn [andb].
+  destruct (Z.of_nat pos + l <=? len d) eqn:E2; [reflexivity|]. symmetry. apply slice_panic. unfold len in E2. lia.
+Qed.
+
+(* ------------------------------------------------------------------------------------------------------------------
+   The sign loop *)
+Lemma g_neg_loop_S K range fuel d i :
+  g_neg_loop K range (S fuel) d i =
+  if i <? len range then
+    (do t98 <- go_idx d i; do t99 <- go_upd d i (Z.lxor t98 255); g_neg_loop K range fuel t99 (i64 (i + 1)))
+  else K fuel d.
+Proof. reflexivity. Qed.
+
+Lemma neg_loop_ok K range : len range < 2 ^ 62 -> forall suf pre f, length range = length (pre ++ suf) ->
+  g_neg_loop K range (S (length suf + f)) (pre ++ suf) (Z.of_nat (length pre)) =
+  K f (pre ++ map (fun b => Z.lxor b 255) suf).
+Proof.
+  intros Hr. change (2 ^ 62) with 4611686018427387904 in Hr. unfold len in Hr.
+  induction suf as [|b suf IH]; intros pre f Hl; rewrite g_neg_loop_S; unfold len; rewrite Hl, app_length in *; cbn [length] in *.
+  - destruct (Z.of_nat (length pre) <? Z.of_nat (length pre + 0)) eqn:E; [lia|]. reflexivity.
+  - destruct (Z.of_nat (length pre) <? Z.of_nat (length pre + S (length suf))) eqn:E; [|lia].
+    rewrite go_idx_nat, at_app_mid. cbn [bind]. unfold go_upd.
+    destruct (Z.of_nat (length pre) <? 0) eqn:E0; [lia|]. rewrite Nat2Z.id, list_upd_app_mid. cbn [bind].
+    rewrite i64_small by lia.
+    replace (Z.of_nat (length pre) + 1) with (Z.of_nat (length (pre ++ [Z.lxor b 255]))) by (rewrite app_length; cbn [length]; lia).
+    replace (pre ++ Z.lxor b 255 :: suf) with ((pre ++ [Z.lxor b 255]) ++ suf) by (rewrite <- app_assoc; reflexivity).
+    cbn [Nat.add]. rewrite IH.
+    + rewrite <- app_assoc. reflexivity.
+    + rewrite !app_length. cbn [length]. lia.
+Qed.
+
+(* ------------------------------------------------------------------------------------------------------------------
+   The text after the sign handling, for any byte list d *)
+Section Cont.
+Variable d : bytes.
+Variables intg0 intg0x scale frac0 frac0x l : Z.
+Hypothesis W : wf_bytes d.
+
+(* the model, cut the same way *)
+Definition m_frac_tail (txt5 : bytes) (p5 : nat) : res (option bytes * Z) :=
+  do fb <- dig2 frac0x;
+  if fb =? 0 then Ok (Some txt5, l)
+  else
+    do v <- be_at d p5 (Z.to_nat fb);
+    Ok (Some (txt5 ++ fmt_0d (Z.to_nat frac0x) v), l).
+Definition m_frac_n (n : nat) (txt4 : bytes) (p2 : nat) : res (option bytes * Z) :=
+  do (txt5, p5) <- dec_frac_groups n d p2 txt4; m_frac_tail txt5 p5.
+Definition m_after_int (txt2 : bytes) (flag2 : bool) (p2 : nat) : res (option bytes * Z) :=
+  let txt3 := if flag2 then txt2 else txt2 ++ [48] in
+  if scale =? 0 then Ok (Some txt3, l)
+  else
+    let txt4 := txt3 ++ [46] in
+    m_frac_n (Z.to_nat frac0) txt4 p2.
+Definition m_int_n (n : nat) (txt1 : bytes) (flag1 : bool) (p : nat) : res (option bytes * Z) :=
+  do (txt2, flag2, p2) <- dec_int_groups n d p txt1 flag1; m_after_int txt2 flag2 p2.
+Definition m_cont (txt0 : bytes) : res (option bytes * Z) :=
+  do nb <- dig2 intg0x;
+  do v0 <- be_at d 0 (Z.to_nat nb);
+  let '(txt1, flag1) := if 0 <? v0 then (txt0 ++ fmt_d v0, true) else (txt0, false) in
+  m_int_n (Z.to_nat intg0) txt1 flag1 (Z.to_nat nb).
+
+Lemma m_frac_n_S n txt p :
+  m_frac_n (S n) txt p = do v <- be_at d p 4; m_frac_n n (txt ++ fmt_0d 9 v) (p + 4).
+Proof. unfold m_frac_n. cbn [dec_frac_groups]. destruct (be_at d p 4); reflexivity. Qed.
+
+Lemma m_int_n_S n txt flag p :
+  m_int_n (S n) txt flag p =
+  do v <- be_at d p 4;
+  if flag then m_int_n n (txt ++ fmt_0d 9 v) true (p + 4)
+  else if 0 <? v then m_int_n n (txt ++ fmt_d v) true (p + 4)
+  else m_int_n n txt false (p + 4).
+Proof.
+  unfold m_int_n. cbn [dec_int_groups]. destruct (be_at d p 4) as [v| |]; cbn [bind]; try reflexivity.
+  destruct flag; [reflexivity|]. destruct (0 <? v); reflexivity.
+Qed.
+
+Hypothesis Hfx : 0 <= frac0x <= 8.
+
+(* the leftover fraction digits *)
+Lemma frac_tail_ok txt p : Z.of_nat p < 2 ^ 62 ->
+  res_sim (g_frac_tail d frac0x l txt (Z.of_nat p)) (flat (m_frac_tail txt p)).
+Proof.
+  intros Hp. unfold g_frac_tail, m_frac_tail. rewrite go_idx_dig2.
+  assert (C : frac0x = 0 \/ frac0x = 1 \/ frac0x = 2 \/ frac0x = 3 \/ frac0x = 4 \/ frac0x = 5 \/ frac0x = 6 \/ frac0x = 7 \/
+              frac0x = 8) by lia.
+  clear Hfx.
+  destruct dig2_vals as (D0 & D1 & D2 & D3 & D4 & D5 & D6 & D7 & D8).
+  repeat (destruct C as [C|C]; [rewrite C; rewrite ?D0, ?D1, ?D2, ?D3, ?D4, ?D5, ?D6, ?D7, ?D8 | ]).
+  9: rewrite C; rewrite D8.
+  all: cbn [bind Z.eqb Pos.eqb]; cbv zeta.
+  all: try (cbn [flat res_sim]; reflexivity).
+  all: rewrite ?go_idx_nat; rewrite ?idx_off by (assumption || (cbn; lia)).
+  all: to_nat_consts; rewrite be_at_at_be by lia; cbn [at_be]; rewrite ?Nat.add_0_r.
+  all: repeat case_at W.
+  all: cbn [bind flat res_sim]; try exact I.
+  all: f_equal; f_equal; f_equal; shl_arith; lia.
+Qed.
+
+(* the full 9-digit fraction groups *)
+Lemma g_frac_loop_S fuel val txt pos i :
+  g_frac_loop d frac0 frac0x l (S fuel) val txt pos i =
+  if i <? frac0 then
+    (do t117 <- go_slice d pos (i64 (pos + 4)); do t116 <- go_be t117 4;
+     g_frac_loop d frac0 frac0x l fuel t116 (txt ++ fmt_0d 9 t116) (i64 (pos + 4)) (i64 (i + 1)))
+  else g_frac_tail d frac0x l txt pos.
+Proof. reflexivity. Qed.
+
+Hypothesis Hf0 : frac0 <= 1000.
+
+Lemma frac_loop_ok : forall n fuel val txt p i,
+  0 <= i -> n = Z.to_nat (frac0 - i) -> (n < fuel)%nat -> Z.of_nat p + 4 * Z.of_nat n < 2 ^ 61 ->
+  res_sim (g_frac_loop d frac0 frac0x l fuel val txt (Z.of_nat p) i) (flat (m_frac_n n txt p)).
+Proof.
+  change (2 ^ 61) with 2305843009213693952.
+  induction n as [|n IH]; intros fuel val txt p i Hi Hn Hfu Hp; (destruct fuel as [|fuel]; [lia|]); rewrite g_frac_loop_S.
+  - destruct (i <? frac0) eqn:E; [lia|]. unfold m_frac_n. cbn [dec_frac_groups bind].
+    apply frac_tail_ok. change (2 ^ 62) with 4611686018427387904. lia.
+  - destruct (i <? frac0) eqn:E; [|lia].
+    rewrite (i64_small (Z.of_nat p + 4)) by lia. rewrite (i64_small (i + 1)) by lia.
+    rewrite (go_slice_be_bind d _ _ _ p eq_refl eq_refl). rewrite m_frac_n_S, flat_bind.
+    destruct (be_at d p 4) as [v| |]; cbn [bind res_sim]; try exact I.
+    replace (Z.of_nat p + 4) with (Z.of_nat (p + 4)) by lia. apply IH; lia.
+Qed.
+
+(* after the integer groups *)
+Lemma int_exit_ok fuel val txt flag p :
+  (Z.to_nat frac0 < fuel)%nat -> Z.of_nat p + 4 * Z.of_nat (Z.to_nat frac0) < 2 ^ 61 ->
+  res_sim (g_int_exit d scale frac0 frac0x l fuel val txt flag (Z.of_nat p)) (flat (m_after_int txt flag p)).
+Proof.
+  intros Hfu Hp. unfold g_int_exit, m_after_int. cbv zeta.
+  destruct flag; cbn [negb bind]; (destruct (scale =? 0); [cbn [flat res_sim]; reflexivity|]).
+  all: apply frac_loop_ok; try lia; f_equal; lia.
+Qed.
+
+(* the full 9-digit integer groups *)
+Lemma g_int_loop_S fuel val txt flag pos i :
+  g_int_loop d intg0 scale frac0 frac0x l (S fuel) val txt flag pos i =
+  if i <? intg0 then
+    (do t114 <- go_slice d pos (i64 (pos + 4)); do t113 <- go_be t114 4;
+     do (v_txt, v_flag) <- (if flag then Ok (txt ++ fmt_0d 9 t113, flag)
+                            else do (v_txt, v_flag) <- (if t113 >? 0 then Ok (txt ++ fmt_d t113, true) else Ok (txt, flag));
+                                 Ok (v_txt, v_flag));
+     g_int_loop d intg0 scale frac0 frac0x l fuel t113 v_txt v_flag (i64 (pos + 4)) (i64 (i + 1)))
+  else g_int_exit d scale frac0 frac0x l fuel val txt flag pos.
+Proof. reflexivity. Qed.
+
+Hypothesis Hi0 : intg0 <= 1000.
+
+Lemma int_loop_ok : forall n fuel val txt flag p i,
+  0 <= i -> n = Z.to_nat (intg0 - i) -> (n + Z.to_nat frac0 + 1 < fuel)%nat ->
+  Z.of_nat p + 4 * Z.of_nat n + 4 * Z.of_nat (Z.to_nat frac0) < 2 ^ 61 ->
+  res_sim (g_int_loop d intg0 scale frac0 frac0x l fuel val txt flag (Z.of_nat p) i) (flat (m_int_n n txt flag p)).
+Proof.
+  change (2 ^ 61) with 2305843009213693952.
+  induction n as [|n IH]; intros fuel val txt flag p i Hi Hn Hfu Hp; (destruct fuel as [|fuel]; [lia|]); rewrite g_int_loop_S.
+  - destruct (i <? intg0) eqn:E; [lia|]. unfold m_int_n. cbn [dec_int_groups bind].
+    apply int_exit_ok; [lia|]. change (2 ^ 61) with 2305843009213693952. lia.
+  - destruct (i <? intg0) eqn:E; [|lia].
+    rewrite (i64_small (Z.of_nat p + 4)) by lia. rewrite (i64_small (i + 1)) by lia.
+    rewrite (go_slice_be_bind d _ _ _ p eq_refl eq_refl). rewrite m_int_n_S, flat_bind.
+    destruct (be_at d p 4) as [v| |]; cbn [bind res_sim]; try exact I.
+    replace (Z.of_nat p + 4) with (Z.of_nat (p + 4)) by lia. rewrite Z.gtb_ltb.
+    destruct flag; [|destruct (0 <? v)]; cbn [bind]; apply IH; lia.
+Qed.
+
+(* the leftover integer digits *)
+Lemma lead_ok nb : 0 <= nb <= 4 -> g_lead_sw d 0 nb = be_at d 0 (Z.to_nat nb).
+Proof.
+  intros H. assert (C : nb = 0 \/ nb = 1 \/ nb = 2 \/ nb = 3 \/ nb = 4) by lia.
+  unfold g_lead_sw.
+  destruct C as [C|[C|[C|[C|C]]]]; subst nb; cbn [Z.eqb Pos.eqb]; cbv zeta.
+  1: reflexivity.
+  all: change 1 with (Z.of_nat 1); change 2 with (Z.of_nat 2); change 3 with (Z.of_nat 3); change 0 with (Z.of_nat 0).
+  all: rewrite ?go_idx_nat.
+  all: change (Z.of_nat 1) with 1; change (Z.of_nat 2) with 2; change (Z.of_nat 3) with 3; change (Z.of_nat 0) with 0.
+  all: to_nat_consts; rewrite be_at_at_be by lia; cbn [at_be Nat.add].
+  all: repeat case_at W.
+  all: try reflexivity.
+  all: f_equal; shl_arith; lia.
+Qed.
+
+Hypothesis Hix : intg0x <= 8.
+
+Lemma cont_ok fuel txt : (Z.to_nat intg0 + Z.to_nat frac0 + 10 < fuel)%nat ->
+  res_sim (g_cont d intg0 intg0x scale frac0 frac0x l fuel txt) (flat (m_cont txt)).
+Proof.
+  intros Hfu. unfold g_cont, m_cont. cbv zeta. rewrite !go_idx_dig2.
+  destruct (Z_lt_dec intg0x 0) as [N|N]; [rewrite (dig2_neg _ N); exact I|].
+  destruct (dig2 intg0x) as [nb| |] eqn:D; cbn [bind flat res_sim]; try exact I.
+  pose proof (dig2_small intg0x nb ltac:(lia) D) as Hnb.
+  rewrite (lead_ok nb Hnb), flat_bind.
+  destruct (be_at d 0 (Z.to_nat nb)) as [v0| |]; cbn [bind res_sim]; try exact I.
+  rewrite Z.gtb_ltb.
+  remember (Z.to_nat nb) as pn eqn:Epn. assert (Hn : nb = Z.of_nat pn) by lia. rewrite Hn.
+  destruct (0 <? v0); cbn [bind]; apply int_loop_ok; try lia.
+  all: try (f_equal; lia).
+  all: change (2 ^ 61) with 2305843009213693952; lia.
+Qed.
+
+End Cont.
+
+Lemma decode_unfold data pos meta :
+  decode_decimal data pos meta =
+  do (intg0, intg0x, frac0, frac0x, scale, l) <- decimal_size meta;
+  do raw <- take data pos l;
+  match raw with
+  | [] => Panic
+  | b0 :: rest =>
+    let isneg := band b0 128 =? 0 in
+    let d1 := Z.lxor b0 128 :: rest in
+    m_cont (if isneg then map (fun b => Z.lxor b 255) d1 else d1) intg0 intg0x scale frac0 frac0x l
+           (if isneg then [45] else [])
+  end.
+Proof. reflexivity. Qed.
 
 Section Cases.
 Variable ffmt : Z -> Z -> bytes.
@@ -13,7 +504,54 @@ Variable jsonp : bytes -> res bytes.
 
 Lemma CellBytes_TypeNewDecimal_ok : case_ok_fuel ffmt tz jsonp CellBytes_TypeNewDecimal_g [246].
 Proof.
-  (* TODO *)
-Admitted.
+  intros fuel Hfuel d pos typ meta uns W Hin Hm Hp. cbn [In] in Hin. destruct Hin as [<-|[]].
+  change (cell_bytes ffmt tz jsonp d pos 246 meta uns) with (decode_decimal d pos meta).
+  rewrite g_unfold, decode_unfold. unfold decimal_size, shr, band, go_shr. change (2 ^ 8) with 256.
+  change (2 ^ 62) with 4611686018427387904 in Hp.
+  rewrite land_255.
+  set (P := meta / 256). set (Sc := meta mod 256).
+  assert (HP : 0 <= P <= 255) by (subst P; lia). assert (HS : 0 <= Sc <= 255) by (subst Sc; lia).
+  clearbody P Sc. cbv zeta.
+  rewrite (i64_small (P - Sc)) by lia.
+  set (intg := P - Sc). assert (Hintg : -255 <= intg <= 255) by (subst intg; lia). clearbody intg.
+  rewrite (i64_small (Z.quot intg 9)) by lia.
+  rewrite (i64_small (Z.quot Sc 9)) by lia.
+  set (intg0 := Z.quot intg 9). set (frac0 := Z.quot Sc 9).
+  assert (Hi0 : -29 <= intg0 <= 29 /\ -8 <= intg - intg0 * 9 <= 8) by (subst intg0; lia).
+  assert (Hf0 : 0 <= frac0 <= 29 /\ 0 <= Sc - frac0 * 9 <= 8) by (subst frac0; lia).
+  clearbody intg0 frac0.
+  rewrite (i64_small (intg0 * 9)) by lia. rewrite (i64_small (frac0 * 9)) by lia.
+  rewrite (i64_small (intg - intg0 * 9)) by lia. rewrite (i64_small (Sc - frac0 * 9)) by lia.
+  set (intg0x := intg - intg0 * 9) in *. set (frac0x := Sc - frac0 * 9) in *. clearbody intg0x frac0x.
+  rewrite !go_idx_dig2.
+  destruct Hi0 as [Hi0 Hix]. destruct Hf0 as [Hf0 Hfx].
+  destruct (Z_lt_dec intg0x 0) as [N|N]; [rewrite (dig2_neg _ N); exact I|].
+  destruct (dig2 intg0x) as [a| |] eqn:Da; cbn [bind flat res_sim]; try exact I.
+  destruct (dig2 frac0x) as [b| |] eqn:Db; cbn [bind flat res_sim]; try exact I.
+  assert (Hix' : 0 <= intg0x <= 8) by lia. pose proof (dig2_small _ _ Hix' Da) as Ha. pose proof (dig2_small _ _ Hfx Db) as Hb.
+  rewrite (i64_small (intg0 * 4)) by lia. rewrite (i64_small (frac0 * 4)) by lia.
+  rewrite (i64_small (intg0 * 4 + a)) by lia. rewrite (i64_small (intg0 * 4 + a + frac0 * 4)) by lia.
+  rewrite (i64_small (intg0 * 4 + a + frac0 * 4 + b)) by lia.
+  set (l := intg0 * 4 + a + frac0 * 4 + b). assert (Hl : l <= 240) by (subst l; lia). clearbody l.
+  unfold go_make. destruct (l <? 0) eqn:El.
+  { cbn [bind]. unfold take. destruct (0 <=? l) eqn:E0; [lia|]. exact I. }
+  cbn [bind]. rewrite take_slice by lia. rewrite (i64_small (Z.of_nat pos + l)) by lia.
+  rewrite (go_slice_Z d _ _ pos (Z.to_nat l) eq_refl) by lia.
+  destruct (slice_cases d pos (Z.to_nat l)) as [(raw & Er & Lr & _)|[Er _]]; rewrite Er; cbn [bind flat res_sim]; [|exact I].
+  rewrite (go_copy_fresh _ _ Lr).
+  pose proof (slice_wf _ _ _ _ W Er) as Wr.
+  destruct raw as [|b0 rest]; [exact I|].
+  change (go_idx (b0 :: rest) 0) with (@Ok Z b0). cbn [bind].
+  change (go_upd (b0 :: rest) 0 (Z.lxor b0 128)) with (@Ok (list Z) (Z.lxor b0 128 :: rest)). cbn [bind].
+  assert (W1 : wf_bytes (Z.lxor b0 128 :: rest)).
+  { unfold wf_bytes in *. inversion Wr; subst. constructor; [|assumption]. unfold is_byte in *. apply lxor_byte. assumption. }
+  set (d1 := Z.lxor b0 128 :: rest) in *.
+  assert (L1 : length d1 = Z.to_nat l) by exact Lr. clearbody d1.
+  destruct (Z.land b0 128 =? 0).
+  - replace fuel with (S (length d1 + (fuel - S (length d1))))%nat by lia.
+    rewrite (neg_loop_ok _ d1 ltac:(unfold len; lia) d1 [] _ eq_refl). cbn [app].
+    apply cont_ok; try lia. apply wf_map_lxor. exact W1.
+  - apply cont_ok; try lia. exact W1.
+Qed.
 
 End Cases.
